@@ -308,6 +308,9 @@ class IoapiOp(Contract):
         'subsetVariables([NO2], exclude)': ('subsetVariables', [['NO2']], dict(exclude=True), ['O3', 'NO'], {}),
         'renameVariable(NO2 -> NOX)': ('renameVariable', ['NO2', 'NOX'], {}, ['O3', 'NO', 'NOX'], {'NOX': 'NO2'}),
         'copy': ('copy', [], {}, ['O3', 'NO2', 'NO'], {}),
+        # a function applied along TSTEP: the data are numpy's business (C03); the meta-data must stay coherent and the
+        # time flags must be regenerated from SDATE/STIME/TSTEP, not averaged
+        'applyAlongDimensions(TSTEP=mean)': ('applyAlongDimensions', [], dict(TSTEP='mean'), ['O3', 'NO2', 'NO'], None),
     }
 
     def __init__(self, op):
@@ -368,20 +371,30 @@ class IoapiOp(Contract):
         want = self.want
         data_names = [k for k in vs if k not in ('TFLAG', 'ETFLAG')]
         tf = vs.get('TFLAG')
+        n = dict(self.n)
+        if 'TSTEP' in self.kw:
+            n['TSTEP'] = 1
         out = [('is-a-new-file', res is not self.f),
                ('data variables of the result', sorted(data_names) == sorted(want)),
                ('VAR-LIST names exactly the data variables, 16 characters each', isinstance(a.get('VAR-LIST'), str) and len(a['VAR-LIST']) == 16 * len(want)
                 and sorted(a['VAR-LIST'][i:i + 16].strip() for i in range(0, len(a['VAR-LIST']), 16)) == sorted(want)),
                ('NVARS = number of data variables', eq(a.get('NVARS'), len(want))),
                ('VAR dimension = NVARS', 'VAR' in d and eq(d['VAR'].attrs['_len'], len(want))),
-               ('TFLAG has one column per data variable', isinstance(tf, SArr) and tf.ndim == 3 and And(eq(tf.shape[0], self.n['TSTEP']), eq(tf.shape[1], len(want)), eq(tf.shape[2], 2))),
-               ('NLAYS/NROWS/NCOLS = dimension lengths', And(eq(a.get('NLAYS'), self.n['LAY']), eq(a.get('NROWS'), self.n['ROW']), eq(a.get('NCOLS'), self.n['COL']),
-                                                           *[eq(d[k].attrs['_len'], x) for k, x in self.n.items() if k in d])),
+               ('TFLAG has one column per data variable', isinstance(tf, SArr) and tf.ndim == 3 and And(eq(tf.shape[0], n['TSTEP']), eq(tf.shape[1], len(want)), eq(tf.shape[2], 2))),
+               ('NLAYS/NROWS/NCOLS = dimension lengths', And(eq(a.get('NLAYS'), n['LAY']), eq(a.get('NROWS'), n['ROW']), eq(a.get('NCOLS'), n['COL']),
+                                                           *[eq(d[k].attrs['_len'], x) for k, x in n.items() if k in d])),
                ('TSTEP unlimited', 'TSTEP' in d and eq(d['TSTEP'].attrs['_unlimited'], True)),
                ('step attribute kept', eq(a.get('TSTEP'), self.tstep))]
         q = tuple(z3.Int('q%d' % k) for k in range(4))
         rng = And(*[And(ge(i, 0), lt(i, self.n[dk])) for i, dk in zip(q, ('TSTEP', 'LAY', 'ROW', 'COL'))])
-        for k in want:
+        if self.alias is None:
+            # the first regenerated flag denotes the start instant, in every variable column
+            from pyvc.dt import instant_yyyyjjj
+            v = z3.Int('v')
+            if isinstance(tf, SArr) and tf.ndim == 3:
+                out.append(('time flags regenerated from SDATE/STIME: the flag denotes the start instant, in every variable column',
+                            Implies(And(ge(v, 0), lt(v, len(want))), eq(instant_yyyyjjj(tf.get(0, v, 0), tf.get(0, v, 1)), instant_yyyyjjj(self.sdate, self.stime)))))
+        for k in (want if self.alias is not None else []):
             X = vs.get(k)
             src = self.alias.get(k, k)
             if isinstance(X, SArr) and X.ndim == 4:
@@ -426,9 +439,8 @@ class IoapiOp(Contract):
             if sorted(names) != sorted(want):
                 bad.append('variables %r expected %r' % (names, want))
             for k in want:
-                src = tr(self.alias.get({v: kk for kk, v in m.items()}.get(k, k), k)) if k == 'NOX' else k
                 src = 'V1' if k == 'NOX' else k
-                if k in g.variables and not np.array_equal(np.asarray(g.variables[k][...]), before[src]):
+                if self.alias is not None and k in g.variables and not np.array_equal(np.asarray(g.variables[k][...]), before[src]):
                     bad.append('%s differs from the source variable %s' % (k, src))
             for k, b in before.items():
                 if k not in f.variables or not np.array_equal(np.asarray(f.variables[k][...]), b):
